@@ -27,7 +27,7 @@ CLAIMS = {
              "or FALSE and every byte unchanged. pixman_image_fill_boxes/_rectangles: TLC requires the logged buffer to "
              "equal, on every channel bit, the buffer obtained by pixman_image_composite32 with a solid source per box on "
              "a twin destination, no bit to change outside boxes-in-clip-in-bounds, and for SRC/opaque OVER/CLEAR the "
-             "pixel value the statement's colour->pixel rule gives. Evidence counts TRUE returns per depth and chain.",
+             "pixel value the statement's colour->pixel rule gives. Evidence counts TRUE returns per depth and chain. " + 'pixman_blt within one buffer (flip about a line, spread / pack lines, disjoint scroll, copy onto itself) is judged by Composite!BltInPlace.' + "",
         ref="5 C19"),
     "C03": dict(
         technique="TLA+ Composite spec (composite region as Region-algebra intersection; bit-granular frame condition): "
@@ -39,7 +39,7 @@ CLAIMS = {
              "near and far coordinate embeddings, plus seeded scenarios (a1/a4/24bpp destinations, alpha maps, glyphs, "
              "trapezoids); TLC validates that pixman_compute_composite_region reports exactly that region and FALSE iff "
              "empty, and that every drawing entry point changes no bit of the logged allocation (guard bytes, row "
-             "padding, sub-byte neighbours, alpha-map buffer) outside the region's pixels.",
+             "padding, sub-byte neighbours, alpha-map buffer) outside the region's pixels. " + 'Every third composite request whose arguments fit goes through pixman_image_composite, the 16-bit entry point.' + "",
         ref="5 C03"),
 }
 
